@@ -485,7 +485,7 @@ func runScenario(in string) (string, error) {
 		return "", err
 	}
 	newObs := sx.L(sx.A("new"), sx.A(rpc), sx.A(state), sx.A(after), commandsSince(w, mark, "CONFIGURE"))
-	if rpc == "err" && newObs.At(4).Len() == 0 && len(sc.tasks) > 0 && allLaunchOk(sc) {
+	if rpc == "err" && newObs.At(4).Len() == 0 && (len(sc.tasks) > 0 || sc.calls > 0) && allLaunchOk(sc) {
 		// DEPLOY failed although every task was scripted to start. Either the harness machine was too slow (inconclusive)
 		// or the core had everything it needed: every TASK_RUNNING update acknowledged long before it gave up.
 		if !runningAckedBy(w, mark, len(sc.tasks), replied.Add(-3*time.Second)) {
